@@ -29,6 +29,7 @@ RULE = (
     "templates per cell; characters are sampled from the codec's own repertoire. distinct = (cell, template "
     "text); non-trivial = the template holds at least one non-ASCII character."
 )
+RULE += ' added since: stateful output codecs, corrupted declarations, module-head options (future_imports / imports) around the coding line, get_def(..).render identity of encoded output.'
 ASSUMPTIONS = ["CPython codecs are the reference; only ASCII-compatible encodings are in scope"]
 MIN_NONTRIVIAL = 200
 REQUIRED_COUNTERS = ["renders_compared", "expected_compile_errors_seen", "module_reloads", "fresh_process_reloads", "output_encodings_compared", "strict_encode_errors_matched"]
